@@ -78,7 +78,7 @@ def texts_for(rng, row):
     return list(dict.fromkeys(out))
 
 
-KCODE = {'KBool': 0, 'KIntOrNone': 1, 'KIntDefault': 2, 'KStrOrNone': 3, 'KStr': 4, 'KList': 5, 'KUrl': 6, 'KErrors': 7, 'KAst': 8, 'KDrm': 9}
+KCODE = {'KBool': 0, 'KIntOrNone': 1, 'KIntDefault': 2, 'KStrOrNone': 3, 'KStr': 4, 'KList': 5, 'KUrl': 6, 'KErrors': 7, 'KAst': 8, 'KDrm': 9, 'KFloatOrNone': 10}
 
 
 def model_kind(row):
@@ -101,6 +101,13 @@ def model_value(row, v):
         return [3, [] if v is None else [[ord(c) for c in v]]]
     if k == 'KStr':
         return [4, [ord(c) for c in v]]
+    if k == 'KFloatOrNone':  # tenths (values with more than one fractional digit are outside the model)
+        if v is None:
+            return [1, []]
+        t = v * 10
+        if t != int(t) or t < 0:
+            return None
+        return [1, [int(t)]]
     if k == 'KUrl':          # the model works on the UTF-8 bytes of the URL
         return [3, [] if v is None else [list(v.encode('utf-8'))]]
     if k == 'KErrors':       # integer positions only (a date-time position is outside the model)
